@@ -3,6 +3,16 @@ use crate::{
     object::{Error, FromString, Object, Type},
 };
 
+// With the verification hooks on, text written by print() goes to a per-thread buffer.
+#[cfg(feature = "verif")]
+macro_rules! print {
+    ($($arg:tt)*) => { crate::verif::out(format!($($arg)*)) };
+}
+#[cfg(feature = "verif")]
+macro_rules! println {
+    () => { crate::verif::out("\n".to_string()) };
+}
+
 #[repr(u8)]
 pub(crate) enum Builtin {
     Print,
